@@ -586,7 +586,7 @@ class C08(ClientProp):
         return clause.startswith("C08:") or clause == "C03:session-of-this-login"
 
     def mc_runs(self, ctx):
-        return list(MODEL_RUNS) + [{"module": "Switcher", "cfg": "Switcher.cfg"}]
+        return list(MODEL_RUNS) + [{"module": "Switcher", "cfg": c, "workers": 8} for c in ("Switcher.cfg", "SwitcherShutter.cfg", "SwitcherThermo.cfg")]
 
     def replay_phase(self, ctx):
         # end to end: operations change the simulated device, state queries on the same connection must report the device model's state
